@@ -21,7 +21,8 @@ EXPLANATION = (
     'raised and setup_failed. R8.6: between the unlocked early duplicate test '
     'and the atomic claim no destructive step is applied to the key\'s own '
     'path. Decides atomicity and ordering of claim/execute/register for all '
-    'schedules via lock discipline; does not enumerate interleavings.')
+    'schedules via lock discipline; does not enumerate interleavings.'
+    ' R8.2b: the whole-subtree repeat test and registration visit every complex suboperation (path enumeration over the two recursive walkers). R8.3d: finish_* only after a claim that succeeded.')
 
 CLAIM_MAPS = {'_files': 'files', '_norm_cased_files': 'files',
               '_subbuilds': 'subbuilds'}
